@@ -3,7 +3,7 @@ import re
 from checks import pipe
 import vlib
 
-PROPS = [("Moyo.Props.C09", "Moyo/Props/C09.lean")]
+PROPS = [("Moyo.Props.C09", "Moyo/Props/C09.lean"), ("Moyo.Props.C09Stages", "Moyo/Props/C09Stages.lean")]
 
 
 def twins(per_mode):
@@ -105,7 +105,7 @@ def run(tier, seed):
                                       "a case is non-trivial when it is a distorted/scaled twin that returned a dataset; distinct = distinct input cells; "
                                       "adjust mode: 260 (1500) crystals with noise of 0.3..4 x symprec or oversized symprec, where the first attempt fails: the recorded "
                                       "ToleranceHandler updates (hook trace) must equal the Lean model's replay of the recorded errors and the returned symprec must be the last attempt's"},
-                             nontrivial, extra=both,
+                             nontrivial, extra=both, stages=["s1", "s3"],
                              trusted=["premise validation of the generator (symmetry gap >= 20 symprec) is a brute-force search in Rust, independent of moyo",
                                       "f64 rounding inside moyo is not modelled; the oracle judges the returned values exactly"])
 
